@@ -300,7 +300,7 @@ def _gen_exhaustive(rng, cap, seg_per_script=48, emu=False, clocks="sorted", onl
         if L >= 24 and reachable(L - 24):
             for t in targets:
                 from_flush.append((L, t))
-        if reachable(L) and (L < 24 or not reachable(L - 24) or L % 7 == 0):
+        if reachable(L) and (L < 24 or not reachable(L - 24) or (cap <= 128 and L % 16 == 0)):
             for t in targets:
                 from_start.append((L, t))
     from_flush = rng.shuffle(from_flush)
